@@ -33,6 +33,7 @@ func checkC03(p *Prog, r *Report) {
 	r.rule("C03.P6", "every emitted segment's wnd comes from wnd_unused() (= C04.W3)", 2)
 	r.rule("C03.P9", "with congestion control on, the sender can always resume: a clamp of cwnd to another quantity stores a value >= 1 (so an advertised window of 0 cannot zero it), and if the constructor leaves cwnd below 1 every congestion-controlled flush ends with cwnd >= 1", 2)
 	r.rule("C03.P11", "a delivered window update restarts the sender at once: the interval flush returns (which re-arms the session's updater) is never stretched beyond kcp.interval, also not while the peer's window is closed (= C18.R8)", 2)
+	r.rule("C03.P13", "the stalled sender's application is stopped too: in WriteBuffers every kcp.Send is admitted only on the true edge of WaitSnd() < snd_wnd taken in the same critical section, and the refused path blocks (= C04.W6) — a shortcut around the gate (stream-mode tail merging, say) lets snd_queue grow without bound while the peer does not read", 2)
 	r.rule("C03.P12", "segments in flight when the window closed are retransmitted until acknowledged, however long the reader pauses: the timeout arm of flush has no retry cap (= C02.A16)", 1)
 	r.rule("C03.P10", "transfer resumes: the room a reader makes is used — after Recv has taken segments every path runs the loop that promotes parked (already acknowledged) segments from rcv_buf, and that loop is entered whenever rcv_buf holds something (= C02.A11)", 1)
 	r.rule("C03.P8", "no data is lost under back-pressure: a segment that Input acknowledges is stored unless it is outside the window or a duplicate (= C02.A1b)", 1)
@@ -475,6 +476,7 @@ func checkC03(p *Prog, r *Report) {
 	checkPromotionInRecv(p, r, "C03.P10")
 	checkFlushIntervalOnlyLowered(p, r, "C03.P11")
 	checkTimeoutArmUnconditional(p, r, "C03.P12")
+	checkWriteAdmission(p, r, "C03.P13")
 	checkCwndNeverStuck(p, r, "C03.P9")
 }
 
